@@ -40,14 +40,15 @@ impl Hash for Function {
 impl Function {
     #[must_use]
     pub fn name(&self) -> LabelString {
-        LabelString::new(
-            self.entry
-                .labels()
-                .into_iter()
-                .map(|x| x.to_string())
-                .collect::<Vec<String>>()
-                .join(", "),
-        )
+        // sorted, so that the name does not depend on the hashing of the label set
+        let mut names = self
+            .entry
+            .labels()
+            .into_iter()
+            .map(|x| x.to_string())
+            .collect::<Vec<String>>();
+        names.sort();
+        LabelString::new(names.join(", "))
     }
 
     pub fn new(
